@@ -65,13 +65,12 @@ ALL_CLAUSES = [c for k in ("C08", "C09", "C11", "C10") for c in CLAUSES[k]]
 FD_C1 = [-1.0 / 60, 3.0 / 20, -3.0 / 4, 0.0, 3.0 / 4, -3.0 / 20, 1.0 / 60]
 FD_C2 = [1.0 / 90, -3.0 / 20, 3.0 / 2, -49.0 / 18, 3.0 / 2, -3.0 / 20, 1.0 / 90]
 FD_NH = 14
-DERIV = dict(rel=1e-6,        # |AD - FD| <= rel*scale + est_factor*(FD error estimate) + abs floor
+DERIV = dict(rel=1e-5,        # |AD - FD| <= rel*scale + est_factor*(FD error estimate) + abs floor
              est_factor=20.0,  # FD error estimate = |D(h_j) - D(h_j/2)| at the best pair of step sizes
              trust=1e-4,      # the quotient is judged only where its own estimate <= trust*scale (+ floor)
              floor=1e-10,     # abs floor: floor*Kref*|V| (stress) and floor*Kref*|V|^2 (tangent)
-             h0=0.02, hmin=0.05, ndir=4,
-             round=8.0)       # rounding of the quotient itself: round*eps*Wabs/h (stress), 4*round*eps*Wabs/h^2 (tangent);
-                              # Wabs = Kref (finite deformation: O(1) terms cancel in the energy) or Kref*|H|^2
+             h0=0.02, hmin=0.05, ndir=4)
+# rounding of a quotient: 2*noise/h (stress), 6*noise/h^2 (tangent), noise = |sixth difference of the stencil values|/sqrt(924) + ulp(W)
 
 
 # ----------------------------------------------------------------------------- model catalogue
@@ -964,12 +963,13 @@ class Point:
         D1 = (Wst * c1).sum(axis=2) / hs[None, :]
         D2 = (Wst * c2).sum(axis=2) / (hs * hs)[None, :]
         eps = 2.0 ** -52
-        # magnitude of the terms that cancel inside one energy evaluation: modulus x (1 + |H|^2) in finite deformation
-        # (O(1) invariants), modulus x |H|^2 for the small-strain models, never less than the energy itself
-        hn = np_norm(H) + 3 * hs
-        wabs = onp.maximum(Kref * ((1.0 + hn ** 2) if self.m["finiteDef"] else hn ** 2), float(onp.abs(Wst[onp.isfinite(Wst)]).max()) if onp.isfinite(Wst).any() else 0.0)
-        R1 = D["round"] * eps * wabs / hs
-        R2 = 4 * D["round"] * eps * wabs / (hs * hs)
+        # noise of one energy evaluation, measured: the sixth difference of the seven stencil values is h^6 W^(6) (negligible at
+        # fine steps, an over-estimate at coarse ones) plus sqrt(924) x the noise; never below one ulp of the energy
+        c6 = onp.array([1.0, -6.0, 15.0, -20.0, 15.0, -6.0, 1.0])
+        wmax = float(onp.abs(Wst[onp.isfinite(Wst)]).max()) if onp.isfinite(Wst).any() else 0.0
+        noise = onp.abs((Wst * c6).sum(axis=2)) / 30.4 + eps * wmax + eps * Kref * (1.0 if self.m["finiteDef"] else 0.0)  # + ulp of the O(1) invariants (rest state: W itself is ~0)
+        R1 = 2.0 * noise / hs[None, :]                 # sum |c1| = 1.83
+        R2 = 6.0 * noise / (hs * hs)[None, :]          # sum |c2| = 6.0
         codes = {}
         for name, Dq, Rq, ad, scale, floor in (
                 ("dS", D1, R1, (P[None] * V).sum(axis=(1, 2)), onp.full(len(V), np_norm(P)), D["floor"] * Kref),
@@ -980,9 +980,9 @@ class Point:
                 # three consecutive step sizes in the asymptotic regime: halving h shrinks the change of the quotient at
                 # least four-fold (6th order: 64-fold) up to rounding -- a non-smooth energy or too large a step fails this
                 def est_of(j):
-                    return abs(Dq[k, j] - Dq[k, j + 1]) + Rq[j + 1]
+                    return abs(Dq[k, j] - Dq[k, j + 1]) + Rq[k, j + 1]
                 js = [j for j in range(FD_NH - 2) if ok[k, j] and ok[k, j + 1] and ok[k, j + 2]
-                      and abs(Dq[k, j + 1] - Dq[k, j + 2]) <= 0.25 * abs(Dq[k, j] - Dq[k, j + 1]) + Rq[j + 2]
+                      and abs(Dq[k, j + 1] - Dq[k, j + 2]) <= 0.25 * abs(Dq[k, j] - Dq[k, j + 1]) + Rq[k, j + 2]
                       and est_of(j + 1) <= D["trust"] * scale[k] + floor]
                 if not js:
                     self.stats["deriv_dirs_skipped_untrusted"] += 1
@@ -992,7 +992,7 @@ class Point:
                 pick = None
                 for jc in sorted(js, key=lambda j: est_of(j + 1)):
                     e = est_of(jc + 1)
-                    if all(abs(Dq[k, jf] - Dq[k, jc + 2]) <= D["est_factor"] * e + 4 * Rq[jf]
+                    if all(abs(Dq[k, jf] - Dq[k, jc + 2]) <= D["est_factor"] * e + 4 * Rq[k, jf]
                            for jf in range(jc + 3, FD_NH) if ok[k, jf]):
                         pick = jc + 1
                         break
@@ -1004,6 +1004,8 @@ class Point:
                 judged += 1
                 allow = D["rel"] * scale[k] + D["est_factor"] * est + floor
                 d = abs(ad[k] - Dq[k, j + 1])
+                if os.environ.get("MP_DERIV_DEBUG"):
+                    print("DERIV", name, "dir", k, "j", j, "est", est, "allow", allow, "d", d, "ad", ad[k], "fd", Dq[k, j + 1], "R", Rq[k, j + 1])
                 if not (math.isfinite(ad[k]) and d <= allow):
                     bad = True
                 elif allow > 0:
